@@ -196,6 +196,17 @@ def run_transform(case):
     """case: dm fields + 'tf' config (+ 'nan' cells).  -> dumps before/after as plain lists."""
     I.set_salt(case.get("matrix"))
     try:
+        t = build(case["tf"])
+        if case.get("warm"):
+            # the transformer object has been used before, on another matrix with the same criteria - a temporary
+            # that is gone (and whose memory is free again) by the time the matrix of the case is built
+            wm = np.array(case["warm"]["matrix"], dtype=float)
+            for (i, j) in case["warm"].get("nan", []):
+                wm[i, j] = np.nan
+            try:
+                t.transform(I.mkdm(wm, list(case["objectives"]), weights=list(case["weights"]), criteria=list(case["criteria"])))
+            except Exception:  # noqa: BLE001
+                pass
         if case.get("nan"):
             mtx = np.array(case["matrix"], dtype=float)
             for (i, j) in case.get("nan", []):
@@ -206,16 +217,6 @@ def run_transform(case):
             dm = I.mk(case)        # direct or derived, float or integer-typed criteria
         before = dump(dm)
         exact_before = exact_cells(dm)
-        t = build(case["tf"])
-        if case.get("warm"):
-            # the transformer object has been used before, on another matrix with the same criteria
-            wm = np.array(case["warm"]["matrix"], dtype=float)
-            for (i, j) in case["warm"].get("nan", []):
-                wm[i, j] = np.nan
-            try:
-                t.transform(I.mkdm(wm, list(case["objectives"]), weights=list(case["weights"]), criteria=list(case["criteria"])))
-            except Exception:  # noqa: BLE001
-                pass
         out = t.transform(dm)
         after = dump(out)
         exact_after = exact_cells(out)
